@@ -17,7 +17,45 @@ def sh(cmd, cwd=None, timeout=3600):
     p = subprocess.run(cmd, shell=True, cwd=cwd, stdout=subprocess.PIPE, stderr=subprocess.STDOUT, text=True, timeout=timeout)
     return p.returncode, p.stdout
 
+def recheck_all():
+    """Final pass: apply each kept seeded change to REPO (default /repo itself), run the recorded
+    quick checks from CHECK_ROOT, revert; update meta.json."""
+    import glob
+    only = sys.argv[2:]
+    rc, out = sh("git status --porcelain", cwd=REPO)
+    if out.strip():
+        print(REPO + " is dirty, refusing"); sys.exit(1)
+    rc, head = sh("git rev-parse --short HEAD", cwd=REPO)
+    rc, vhead = sh("git rev-parse --short HEAD", cwd="/verif")
+    for d in sorted(glob.glob("/verif/seeded/*/")):
+        name = os.path.basename(d.rstrip("/"))
+        if only and not any(o in name for o in only):
+            continue
+        meta = json.load(open(d + "meta.json"))
+        rc, out = sh(f"git apply {d}patch.diff", cwd=REPO)
+        if rc != 0:
+            print(name, "patch does not apply:", out[:200]); continue
+        results = {}
+        try:
+            for c in meta["checks_quick"].keys():
+                t = time.time()
+                rc, out = sh(f"./check {c} quick --no-evidence", cwd=CHECK_ROOT)
+                lines = [l for l in out.splitlines() if l.startswith("VIOLATION") or l.strip().startswith(("clause", "what"))]
+                results[c] = {"exit": rc, "seconds": round(time.time() - t, 1), "report": lines[:3]}
+        finally:
+            sh("git checkout -- . && git clean -fdq src", cwd=REPO)
+        meta["checks_quick"] = results
+        meta["checks_run_from"] = CHECK_ROOT
+        meta["repo_used"] = REPO
+        meta["repo_commit"] = head.strip()
+        meta["verif_commit"] = vhead.strip()
+        meta["caught"] = any(r["exit"] == 1 for r in results.values())
+        json.dump(meta, open(d + "meta.json", "w"), indent=1, ensure_ascii=False)
+        print(name, "caught" if meta["caught"] else "NOT CAUGHT", {k: (v["exit"], v["seconds"]) for k, v in results.items()}, flush=True)
+
 def main():
+    if sys.argv[1] == "recheck-all":
+        return recheck_all()
     prop, n, needs = sys.argv[2], sys.argv[3], sys.argv[4]
     checks = [prop]
     if "--checks" in sys.argv:
